@@ -15,7 +15,7 @@ pub assume_specification [{{T}}::rem_euclid] (a: {{T}}, b: {{T}}) -> (r: {{T}})
     ensures r as int == er(a as int, b as int);
 // Rust's `/` and `%` on signed integers truncate toward zero.  Verus generates the right preconditions for them but
 // its DivSpec/RemSpec are not unfolded by the solver when the divisor may be negative, so the documented semantics is
-// stated here as a (trusted) axiom; cross-checked against the real operators by kani/src/prelude_check.rs.
+// stated here as a (trusted, admitted) axiom, listed under trusted_base.
 pub proof fn axiom_div_{{T}}(a: {{T}}, b: {{T}})
     requires b != 0, !(a as int == min_of(true, {{W}}) && b == -1)
     ensures DivSpec::<{{T}}>::div_spec(a, b) as int == tz(a as int, b as int),
